@@ -20,7 +20,7 @@ ASSUMPTIONS = [
 TECHNIQUE = "metamorphic prefix relation over generated series and parameters, all indicators collected per series, bucketed by (indicator, field)"
 MIN_NONTRIVIAL = {'quick': 1500, 'thorough': 30000}
 
-KINDS = ['walk', 'trend', 'downtrend', 'spikes', 'alternating', 'flatish', 'walk', 'spikes', 'constant', 'monotone', 'lattice', 'leading-zero-volume', 'lattice', 'gappy']
+KINDS = ['walk', 'trend', 'downtrend', 'spikes', 'alternating', 'flatish', 'walk', 'spikes', 'constant', 'monotone', 'lattice', 'leading-zero-volume', 'lattice', 'gappy', 'flat-middle', 'flat-middle']
 
 
 def _num_like(x):
@@ -93,6 +93,10 @@ def eval_case(case, only=None):
         # also cut inside / right at the end of the zero-volume stretch (a prefix made of gap-filled candles only)
         stretch = int(np.argmax(c[:, 5] > 0))
         ks += [k for k in (stretch, stretch - 1) if k >= min(case['ks'] + [100]) and k not in ks]
+    if case['kind'] == 'flat-middle':
+        flat = np.flatnonzero((c[:, 3] == c[:, 4]) & (c[:, 5] == 0))
+        if len(flat):
+            ks += [k for k in (int(flat[0]), int(flat[0]) + 5, int(flat[-1]) + 1) if k >= min(case['ks'] + [100]) and k < case['n'] and k not in ks]
     case = dict(case, ks=sorted(ks))
     for name, (f, sig) in ind.items():
         if only and name not in only:
